@@ -96,6 +96,12 @@ func (s Spec) String() string {
 
 // MakeLiteral builds the message bytes for a harness key. The key is carried in the X-Verif-Key header.
 func MakeLiteral(key string) []byte {
+	if strings.HasPrefix(key, "u") {
+		// a valid message whose content hash cannot be computed: its text part declares base64 but is not decodable
+		return []byte("From: sender-" + key + "@example.org\r\nTo: rcpt@example.org\r\nSubject: msg " + key +
+			"\r\nX-Verif-Key: " + key + "\r\nDate: Mon, 02 Jan 2006 12:00:00 +0000\r\nMIME-Version: 1.0\r\nContent-Type: text/plain; charset=utf-8\r\n" +
+			"Content-Transfer-Encoding: base64\r\n\r\n%%% body of " + key + " is not base64 %%%\r\n")
+	}
 	return []byte("From: sender-" + key + "@example.org\r\nTo: rcpt@example.org\r\nSubject: msg " + key +
 		"\r\nX-Verif-Key: " + key + "\r\nDate: Mon, 02 Jan 2006 12:00:00 +0000\r\n\r\nbody of " + key + "\r\n")
 }
